@@ -372,11 +372,37 @@ structure LogEffect where
   snapshots : Nat                            -- snapshots pushed
 deriving Repr, DecidableEq
 
-def logAction (ev : String → Outcome) (tpl : String) (tp ctx : String) (collect : Bool) : LogEffect :=
+/-- `process_log` as the actions see it: the rendered message and watch expressions, or none when the formatter raised -/
+def procLog (ev : String → Outcome) (tpl : String) : Option ProcLog :=
   match render ev tpl with
-  | .ok r => ⟨[loggerReceives r.msg tp ctx], if collect then some r.msg else none,
-              if collect then r.watches else [], if collect then 1 else 0⟩
-  | .error _ => ⟨[], none, [], 0⟩     -- the formatter raised: the action (snapshot included) is lost
+  | .ok r => some ⟨r.msg, r.watches⟩
+  | .error _ => none
+
+/-- does `LogActionResult.process` find a logger to call (test extracted from the source) -/
+def loggerFoundBy (t : LoggerTest) (lg : LoggerObj) : Bool :=
+  match lg with
+  | .absent => false
+  | .plain => true
+  | .falsy => (match t with | .truthy => false | .notNone => true)
+
+def loggerFound (lg : LoggerObj) : Bool := loggerFoundBy loggerTest lg
+
+/-- `LogActionResult.process`: the logger calls made for one attached result -/
+def logResultProcess (lg : LoggerObj) (tp ctx : String) (msg : String) : List (List (LogArg × String)) :=
+  if loggerFound lg then [loggerReceives msg tp ctx] else []
+
+/-- a log tracepoint at one permitted hit, composed from the written-out source shapes
+    (`Extracted.Expr.logActionAttach`, `snapshotLogBranch`) and `LogActionResult.process` -/
+def logActionWith (lg : LoggerObj) (ev : String → Outcome) (tpl : String) (tp ctx : String) (collect : Bool) : LogEffect :=
+  if collect then
+    match snapshotLogBranch (some tpl) (procLog ev) with
+    | none => ⟨[], none, [], 0⟩          -- the formatter raised inside _process_action: the snapshot is lost too
+    | some (lm, ws, attached) => ⟨attached.flatMap (logResultProcess lg tp ctx), lm, ws, 1⟩
+  else
+    ⟨(logActionAttach (procLog ev tpl)).flatMap (logResultProcess lg tp ctx), none, [], 0⟩
+
+def logAction (ev : String → Outcome) (tpl : String) (tp ctx : String) (collect : Bool) : LogEffect :=
+  logActionWith .plain ev tpl tp ctx collect
 
 /-! ### several tracepoints on one event: the results they attach, and `TriggerContext.__exit__` -/
 
